@@ -4,6 +4,7 @@ import DM.Drv.C07
 import DM.Drv.C08
 import DM.Drv.Enc
 import DM.Drv.Dec
+import DM.Drv.C17
 open DM.Drv
 
 def dispatch (args : List String) : String :=
@@ -23,6 +24,9 @@ def dispatch (args : List String) : String :=
   | some r => r
   | none =>
   match decOp args with
+  | some r => r
+  | none =>
+  match c17 args with
   | some r => r
   | none => "bad-op"
 
